@@ -709,3 +709,148 @@ func (in *Interp) installReflectStubs() {
 		return in.valEq(StrV{s[:len(p)]}, StrV{p})
 	}
 }
+
+// ---- bbolt: a bucket is an ordered key/value list (the documented cursor contract:
+// sorted iteration, Seek positions at the first key >= the argument).
+type boltBucket struct {
+	keys [][]*Term
+	vals []Value
+}
+
+type boltCursor struct {
+	b   *boltBucket
+	pos int
+}
+
+func (in *Interp) boltOf(v Value) *boltBucket {
+	p, ok := v.(PtrV)
+	if !ok || p.loc == nil {
+		in.abort("panic", "nil *bbolt.Bucket")
+	}
+	b, ok := in.bolts[p.loc]
+	if !ok {
+		in.abort("unsupported", "bbolt.Bucket not created by the harness")
+	}
+	return b
+}
+
+// insert keeping ascending order (forks on comparisons with symbolic keys)
+func (in *Interp) boltPut(b *boltBucket, k []*Term, v Value) {
+	for i := range b.keys {
+		c := cmpBytesTerm(k, b.keys[i])
+		if in.branch(Eq(c, BVi(64, 0))) {
+			b.vals[i] = v
+			return
+		}
+		if in.branch(CmpBV("bvslt", c, BVi(64, 0))) {
+			b.keys = append(b.keys[:i], append([][]*Term{k}, b.keys[i:]...)...)
+			b.vals = append(b.vals[:i], append([]Value{v}, b.vals[i:]...)...)
+			return
+		}
+	}
+	b.keys = append(b.keys, k)
+	b.vals = append(b.vals, v)
+}
+
+func bytesSlice(b []*Term) SliceV {
+	arr := make([]*Loc, len(b))
+	for i, t := range b {
+		arr[i] = &Loc{v: t}
+	}
+	return SliceV{arr: arr, n: len(arr), cp: len(arr)}
+}
+
+func (in *Interp) cursorKV(c *boltCursor) Value {
+	if c.pos < 0 || c.pos >= len(c.b.keys) {
+		return TupleV{[]Value{SliceV{isNil: true}, SliceV{isNil: true}}}
+	}
+	return TupleV{[]Value{bytesSlice(c.b.keys[c.pos]), c.b.vals[c.pos]}}
+}
+
+func (in *Interp) installBoltStubs() {
+	S := in.stubs
+	const bb = "go.etcd.io/bbolt"
+	in.intrinsics["vboltbucket"] = func(in *Interp, args []Value) Value {
+		ks, vs := args[0].(SliceV), args[1].(SliceV)
+		b := &boltBucket{}
+		for i := 0; i < ks.n; i++ {
+			k := sliceBytes(ks.arr[ks.off+i].get().(SliceV))
+			var v Value = SliceV{isNil: true}
+			if i < vs.n {
+				v = vs.arr[vs.off+i].get()
+			}
+			in.boltPut(b, k, v)
+		}
+		l := &Loc{v: BVu(8, 0)}
+		in.bolts[l] = b
+		return PtrV{loc: l}
+	}
+	S["(*"+bb+".Bucket).Writable"] = func(in *Interp, fn *ssa.Function, a []Value) Value { return Bool(true) }
+	S["(*"+bb+".Bucket).Get"] = func(in *Interp, fn *ssa.Function, a []Value) Value {
+		b := in.boltOf(a[0])
+		k := sliceBytes(a[1].(SliceV))
+		for i := range b.keys {
+			if in.branch(Eq(cmpBytesTerm(k, b.keys[i]), BVi(64, 0))) {
+				return b.vals[i]
+			}
+		}
+		return SliceV{isNil: true}
+	}
+	S["(*"+bb+".Bucket).Put"] = func(in *Interp, fn *ssa.Function, a []Value) Value {
+		in.boltPut(in.boltOf(a[0]), sliceBytes(a[1].(SliceV)), a[2])
+		return IfaceV{}
+	}
+	S["(*"+bb+".Bucket).Delete"] = func(in *Interp, fn *ssa.Function, a []Value) Value {
+		b := in.boltOf(a[0])
+		k := sliceBytes(a[1].(SliceV))
+		for i := range b.keys {
+			if in.branch(Eq(cmpBytesTerm(k, b.keys[i]), BVi(64, 0))) {
+				b.keys = append(b.keys[:i:i], b.keys[i+1:]...)
+				b.vals = append(b.vals[:i:i], b.vals[i+1:]...)
+				break
+			}
+		}
+		return IfaceV{}
+	}
+	S["(*"+bb+".Bucket).ForEach"] = func(in *Interp, fn *ssa.Function, a []Value) Value {
+		b := in.boltOf(a[0])
+		f := a[1].(FuncV)
+		for i := 0; i < len(b.keys); i++ {
+			r := in.call(f.fn, []Value{bytesSlice(b.keys[i]), b.vals[i]}, f.binds).(IfaceV)
+			if r.t != nil {
+				return r
+			}
+		}
+		return IfaceV{}
+	}
+	S["(*"+bb+".Bucket).Cursor"] = func(in *Interp, fn *ssa.Function, a []Value) Value {
+		l := &Loc{v: BVu(8, 0)}
+		in.cursors[l] = &boltCursor{b: in.boltOf(a[0]), pos: -1}
+		return PtrV{loc: l}
+	}
+	cur := func(in *Interp, v Value) *boltCursor { return in.cursors[v.(PtrV).loc] }
+	S["(*"+bb+".Cursor).First"] = func(in *Interp, fn *ssa.Function, a []Value) Value {
+		c := cur(in, a[0])
+		c.pos = 0
+		return in.cursorKV(c)
+	}
+	S["(*"+bb+".Cursor).Next"] = func(in *Interp, fn *ssa.Function, a []Value) Value {
+		c := cur(in, a[0])
+		if c.pos < len(c.b.keys) {
+			c.pos++
+		}
+		return in.cursorKV(c)
+	}
+	S["(*"+bb+".Cursor).Seek"] = func(in *Interp, fn *ssa.Function, a []Value) Value {
+		c := cur(in, a[0])
+		k := sliceBytes(a[1].(SliceV))
+		c.pos = len(c.b.keys)
+		for i := range c.b.keys {
+			if in.branch(CmpBV("bvsle", cmpBytesTerm(k, c.b.keys[i]), BVi(64, 0))) {
+				c.pos = i
+				break
+			}
+		}
+		return in.cursorKV(c)
+	}
+}
